@@ -67,6 +67,8 @@ type simWorld struct {
 	gate     func(r *recorded)                  // optional: blocks until the schedule releases this request
 	pollSDL  map[string]func() (string, *fault) // optional per-service override of the poll answer
 	maxBody  int64
+	laxLists bool // the services leave null elements in [T!] lists (execCtx.laxLists)
+	cookies  bool // every answer to a query sets a cookie naming the client request it belonged to (as a load balancer might)
 }
 
 func (w *simWorld) requests() []*recorded {
@@ -115,6 +117,14 @@ func jsonResp(req *http.Request, status int, body string) *http.Response {
 }
 
 func (w *simWorld) RoundTrip(req *http.Request) (*http.Response, error) {
+	resp, err := w.roundTrip(req)
+	if w.cookies && resp != nil && req.Header.Get("X-Fwd-Req") != "" {
+		resp.Header.Add("Set-Cookie", "verifreq="+req.Header.Get("X-Fwd-Req")+"; Path=/")
+	}
+	return resp, err
+}
+
+func (w *simWorld) roundTrip(req *http.Request) (*http.Response, error) {
 	body, _ := io.ReadAll(req.Body)
 	req.Body.Close()
 	var in struct {
@@ -204,7 +214,7 @@ func (w *simWorld) RoundTrip(req *http.Request) (*http.Response, error) {
 	if op == nil && len(doc.Operations) > 0 {
 		op = doc.Operations[0]
 	}
-	x := &execCtx{schema: svc.Schema, data: w.data, vars: in.Variables, fed: w.fed, svc: svc}
+	x := &execCtx{schema: svc.Schema, data: w.data, vars: in.Variables, fed: w.fed, svc: svc, laxLists: w.laxLists}
 	var effects []string
 	x.effects = &effects
 	if x.vars == nil {
@@ -362,6 +372,18 @@ type gwOpts struct {
 	maxBody      int64
 	noPoll       bool
 	realHTTP     bool // downstream calls go through a real net/http Transport and TCP connections (keep-alive, pooling, retries)
+	ownClient    bool // the query client is the one bramble builds itself (as Config.Init does); only its transport is the world's
+}
+
+// transportPlugin hands the simulated world to the HTTP client that bramble builds for itself.
+type transportPlugin struct {
+	bramble.BasePlugin
+	rt http.RoundTripper
+}
+
+func (p *transportPlugin) ID() string { return "verif-transport" }
+func (p *transportPlugin) WrapGraphQLClientTransport(http.RoundTripper) http.RoundTripper {
+	return p.rt
 }
 
 // realTransport serves the simulated world on a loopback listener and returns a genuine http.Transport that dials it
@@ -423,13 +445,17 @@ func newGateway(world *simWorld, o gwOpts) (*gatewayUnderTest, error) {
 		copts = append(copts, bramble.WithMaxResponseSize(o.maxBody))
 		world.maxBody = o.maxBody
 	}
+	pp := &permPlugin{perms: map[string]bramble.OperationPermissions{}}
+	plugins := append([]bramble.Plugin{pp}, o.extraPlugins...)
 	client := bramble.NewClient(copts...)
+	if o.ownClient {
+		plugins = append(plugins, &transportPlugin{rt: hc.Transport})
+		client = bramble.NewClientWithPlugins(plugins, copts[1:]...)
+	}
 	var services []*bramble.Service
 	for _, s := range world.fed.Services {
 		services = append(services, bramble.NewService(s.URL, bramble.WithHTTPClient(hc)))
 	}
-	pp := &permPlugin{perms: map[string]bramble.OperationPermissions{}}
-	plugins := append([]bramble.Plugin{pp}, o.extraPlugins...)
 	es := bramble.NewExecutableSchema(plugins, o.maxRequests, client, services...)
 	g := &gatewayUnderTest{world: world, es: es, perm: pp, client: client}
 	if !o.noPoll {
